@@ -226,6 +226,33 @@ impl ScriptGen {
         s
     }
 
+    /// Position and kind of a single-fault corruption: a command that introduces no new variable.
+    pub fn pick_fault(cmds: &[Cmd], rng: &mut Rng) -> Option<(usize, usize)> {
+        let mut known: Vec<String> = vec![];
+        let mut ok_pos = vec![];
+        for (i, c) in cmds.iter().enumerate() {
+            let idents: Vec<&Ident> = match c {
+                Cmd::Add(i) | Cmd::Put(i, _) => vec![i],
+                Cmd::Bind(a, b, _) => vec![a, b],
+            };
+            if !idents.iter().any(|x| matches!(x, Ident::Var(n) if !known.contains(n))) {
+                ok_pos.push(i);
+            }
+            for x in idents {
+                if let Ident::Var(n) = x {
+                    if !known.contains(n) {
+                        known.push(n.clone());
+                    }
+                }
+            }
+        }
+        if ok_pos.is_empty() {
+            None
+        } else {
+            Some((*rng.pick(&ok_pos), rng.below(Self::FAULT_KINDS)))
+        }
+    }
+
     pub const FAULT_KINDS: usize = 12;
     pub fn fault_name(kind: usize) -> &'static str {
         [
@@ -283,7 +310,12 @@ impl ScriptGen {
             },
             9 => match c {
                 Cmd::Put(..) => {
-                    args[1] = self.rng.pick(&["zz", "0g", "hello!", "12-3x"]).to_string();
+                    args[1] = self
+                        .rng
+                        .pick(&[
+                            "zz", "0g", "hello!", "12-3x", "+E", "CA-+E", "-1", "1_", "C€-FE", "€€", "é1", "1é", "١٢", "A𝜑", "0x", "CA-FE-+1", "ＡＢ",
+                        ])
+                        .to_string();
                     join(&name, &args)
                 }
                 _ => join("PUT", &[args[0].clone(), "zz".to_string()]),
